@@ -774,7 +774,7 @@ func (ex *c18Exec) encode() (wire string, obs map[string]any, feats map[string]s
 		}
 	}
 	e := &emit.Enc{}
-	pstr := func(s string) { // length, then 7 bytes per number (little-endian)
+	pstr := func(s string) { // length, then 7 bytes per number (little-endian); 17 digits per token is what Coq's numeral parser likes
 		e.Len(len(s))
 		for i := 0; i < len(s); i += 7 {
 			var z int64
@@ -794,9 +794,29 @@ func (ex *c18Exec) encode() (wire string, obs map[string]any, feats map[string]s
 			e.Bool(true).Big(b.String())
 		}
 	}
+	// key table: distinct path components once, every key as the list of its components' numbers
+	// (keys share long prefixes; the vm_compute cross-check pays per digit)
+	cidx := map[string]int{}
+	var comps []string
+	for _, k := range tbl {
+		for _, c := range strings.Split(k, "/") {
+			if _, ok := cidx[c]; !ok {
+				cidx[c] = len(comps)
+				comps = append(comps, c)
+			}
+		}
+	}
+	e.Len(len(comps))
+	for _, c := range comps {
+		pstr(c)
+	}
 	e.Len(len(tbl))
 	for _, k := range tbl {
-		pstr(k)
+		parts := strings.Split(k, "/")
+		e.Len(len(parts))
+		for _, c := range parts {
+			e.Int(cidx[c])
+		}
 	}
 	e.Len(len(vals))
 	for _, v := range vals {
@@ -816,12 +836,11 @@ func (ex *c18Exec) encode() (wire string, obs map[string]any, feats map[string]s
 		e.Len(len(ks))
 		for _, k := range ks {
 			n := m[k]
-			e.Int(id(k))
-			if n.Dir {
-				e.Z(-2)
-			} else {
-				e.Int(vidx[sha256.Sum256(n.Val)])
+			v := -2
+			if !n.Dir {
+				v = vidx[sha256.Sum256(n.Val)]
 			}
+			e.Int(id(k)*100000 + v + 2)
 		}
 	}
 	encStore(ex.before)
@@ -860,7 +879,7 @@ func (ex *c18Exec) encode() (wire string, obs map[string]any, feats map[string]s
 		if ev.OK {
 			ok = 1
 		}
-		e.Int(ev.Tid*16 + ev.Kind*2 + ok).Int(id(ev.Key))
+		e.Int((ev.Tid*16+ev.Kind*2+ok)*100000 + id(ev.Key))
 	}
 	encStore(ex.after)
 
@@ -1558,6 +1577,36 @@ func runC18(tier string, seed int64, outdir string, replay string) error {
 	g := &c18Gen{r: rand.New(rand.NewSource(seed))}
 	for i := 0; i < n; i++ {
 		sp := g.spec(w.Hist)
+		if len(sp.Runs[0].Faults) == 0 && sp.Runs[0].Cancel < 0 && !sp.Concurrent && g.r.Intn(6) == 0 {
+			// a fault (or the cancellation) aimed at a call of a chosen kind of the fault-free execution
+			dry := mat.execute(sp)
+			var own []c18Event
+			for _, ev := range dry.trace {
+				if ev.Tid == 0 {
+					own = append(own, ev)
+				}
+			}
+			byKind := map[int][]int{}
+			var kinds []int
+			for j, ev := range own {
+				if len(byKind[ev.Kind]) == 0 {
+					kinds = append(kinds, ev.Kind)
+				}
+				byKind[ev.Kind] = append(byKind[ev.Kind], j)
+			}
+			if len(kinds) > 0 {
+				k := kinds[g.r.Intn(len(kinds))]
+				at := byKind[k][g.r.Intn(len(byKind[k]))]
+				name := []string{"Lock", "Unlock", "Load", "List", "Stat", "Delete", "Store"}[k]
+				if g.r.Intn(4) == 0 && at > 0 {
+					sp.Runs[0].Cancel = at
+					w.Hist("env=aimed_cancel:" + name)
+				} else {
+					sp.Runs[0].Faults = []int{at}
+					w.Hist("env=aimed_fault:" + name)
+				}
+			}
+		}
 		if len(sp.Runs) == 1 && g.r.Intn(3) == 0 {
 			// other actors write during the cleaning: place them at calls of the interference-free execution
 			dry := mat.execute(sp)
